@@ -229,6 +229,14 @@ func (w *W) c15Program(k int) {
 				fpj, ferr = simdjson.Parse(fbuf, nil, simdjson.WithCopyStrings(cp))
 			}
 			want := c15Observe(fpj, ferr)
+			if err == nil && ferr == nil {
+				// the exported buffers of the document as well: nothing of what the object held
+				// before may be part of them (the string buffer of a reused object starts empty)
+				if d := c15ExportedSame(pj, fpj); d != "" {
+					w.Violation("C15/exported-buffers-differ-from-fresh/"+key, fmt.Sprintf("%s: same document, but %s; history=%v", desc, d, lastN(trace, 8)), cs)
+					return
+				}
+			}
 			if d := c15Same(got, want); d != "" {
 				w.Violation("C15/differs-from-fresh/"+key, fmt.Sprintf("%s: %s; history=%v", desc, d, lastN(trace, 8)), cs)
 				return
@@ -541,6 +549,30 @@ func (w *W) c15SerializerSizes(k int) {
 	}
 	w.Count("serializer_size_histories", 1)
 	w.Nontrivial(uint64(hseed))
+}
+
+// c15ExportedSame compares the exported Tape and Strings.B of a document parsed into a reused object
+// with those of the same input parsed into fresh objects.
+func c15ExportedSame(a, b *simdjson.ParsedJson) string {
+	if len(a.Tape) != len(b.Tape) {
+		return fmt.Sprintf("Tape has %d words, %d when parsed without reuse", len(a.Tape), len(b.Tape))
+	}
+	for i := range a.Tape {
+		if a.Tape[i] != b.Tape[i] {
+			return fmt.Sprintf("Tape[%d] = %#x, %#x when parsed without reuse", i, a.Tape[i], b.Tape[i])
+		}
+	}
+	var sa, sb []byte
+	if a.Strings != nil {
+		sa = a.Strings.B
+	}
+	if b.Strings != nil {
+		sb = b.Strings.B
+	}
+	if !bytes.Equal(sa, sb) {
+		return fmt.Sprintf("Strings.B holds %d bytes (%.40q...), %d (%.40q...) when parsed without reuse", len(sa), sa, len(sb), sb)
+	}
+	return ""
 }
 
 // c15SerPanicBudget: how many recovered Serialize panics a worker process still provokes.
